@@ -437,6 +437,12 @@ func streamChan(o *Out, r *rand.Rand, n int, thorough bool) {
 		{"struct-channels-two-workers", "make(type Worker, make(struct { In chan int64 }))\nw1 = make(Worker)\nw2 = make(Worker)\nout = make(chan int64, 16)\nfunc run(w, k) {\nfor v in w.In {\nout <- v * k\n}\nout <- 0 - k\n}\ngo run(w1, 1)\ngo run(w2, 100)\nw1.In <- 1\nw1.In <- 2\nclose(w1.In)\nw2.In <- 4\nclose(w2.In)\ns = 0\nfor i = 0; i < 5; i++ {\ns += <-out\n}\ns", "302"},
 		{"struct-channels-nested", "make(type Box, make(struct { In chan int64 }))\nmake(type Pair, make(struct { A Box, B Box }))\np = make(Pair)\nq = make(Pair)\nclose(p.A.In)\nclose(p.B.In)\nclose(q.A.In)\nclose(q.B.In)\n\"all four closed once\"", "all four closed once"},
 		{"struct-channels-in-a-slice", "ws = make([]struct { In chan int64 }, 2)\nws[0] = make(struct { In chan int64 })\nws[1] = make(struct { In chan int64 })\nclose(ws[0].In)\ngo func() { ws[1].In <- 9 }()\n<-ws[1].In", "9"},
+		// a goroutine that fails does so on its own: the statement that started it - long finished - and its starter are not touched
+		{"go-variadic-fails-starter-continues", "out = make(chan int64, 4)\nfunc stage(out, items...) {\nfor x in items {\nout <- x\n}\nthrow \"stage failed\"\n}\ngo stage(out, 1, 2, 3)\nn = 0\nfor i = 0; i < 150000; i++ {\nn++\n}\nt = 0\nfor i = 0; i < 3; i++ {\nt += <-out\n}\n[t, n]", "[6,150000]"},
+		{"go-six-parameters-fails-starter-continues", "out = make(chan int64, 4)\nfunc stage6(out, a, b, c, d, e) {\nout <- a + b + c + d + e\nx = [1][5]\n}\ngo stage6(out, 1, 2, 3, 4, 5)\nn = 0\nfor i = 0; i < 150000; i++ {\nn++\n}\n[<-out, n]", "[15,150000]"},
+		{"go-variadic-succeeds-starter-error-kept", "done = make(chan bool, 1)\nfunc quick(items...) {\ndone <- true\n}\nr = \"\"\ntry {\ngo quick(1)\n<-done\nfor i = 0; i < 50000; i++ {\n}\nthrow \"mine\"\n} catch e {\nr = \"caught\"\n}\nr", "caught"},
+		// `go` returns to its caller at once, however many goroutines are waiting
+		{"many-goroutines-wait-for-a-gate", "gate = make(chan bool)\nres = make(chan int64, 1500)\nfor k = 0; k < 1500; k++ {\ngo func(k) {\n<-gate\nres <- 1\n}(k)\n}\nclose(gate)\nt = 0\nfor i = 0; i < 1500; i++ {\nt += <-res\n}\nt", "1500"},
 		// closing is about the channel, not about where it lives: thousands of channels made and closed one after another
 		{"close-fresh-channels", "n = 0\nfor i = 0; i < 60000; i++ {\nc = make(chan int64, 1)\nclose(c)\nn++\n}\nn", "60000"},
 		{"reply-channel-per-request", "reqs = make(chan interface, 4)\ngo func() {\nfor r in reqs {\nc = r[0]\nc <- 1\nclose(c)\n}\n}()\nt = 0\nfor i = 0; i < 20000; i++ {\nreply = make(chan int64, 1)\nreqs <- [reply]\nfor v in reply {\nt += v\n}\n}\nclose(reqs)\nt", "20000"},
